@@ -51,7 +51,7 @@ func (r *vhRand) Read(p []byte) (int, error) {
 		src = vBytes(r.name, len(p))
 	}
 	copy(p, src)
-	r.log = append(r.log, src)
+	r.log = append(r.log, p) // alias of the caller's buffer (the library keeps secrets in it)
 	return len(p), nil
 }
 
